@@ -31,6 +31,10 @@ use tracing::instrument;
 ///
 /// Provides async versions of signature, delta, and patch operations
 /// for use with tokio runtime.
+/// Upper bound for the buffer used to copy one basis range into the output.
+#[cfg(feature = "async")]
+const COPY_CHUNK: usize = 1 << 20;
+
 #[derive(Debug, Clone)]
 pub struct AsyncCopiaSync {
     config: SyncConfig,
@@ -251,10 +255,17 @@ impl AsyncCopiaSync {
             match op {
                 DeltaOp::Copy { offset, len } => {
                     basis.seek(std::io::SeekFrom::Start(*offset)).await?;
-                    let mut buffer = vec![0u8; *len as usize];
-                    basis.read_exact(&mut buffer).await?;
-                    output.write_all(&buffer).await?;
-                    hasher.update(&buffer);
+                    // Copy through a bounded buffer: `len` comes from the (untrusted) delta
+                    // and must never size an allocation (u32::MAX would reserve 4 GiB).
+                    let mut buffer = vec![0u8; (*len as usize).min(COPY_CHUNK)];
+                    let mut remaining = *len as usize;
+                    while remaining > 0 {
+                        let n = remaining.min(buffer.len());
+                        basis.read_exact(&mut buffer[..n]).await?;
+                        output.write_all(&buffer[..n]).await?;
+                        hasher.update(&buffer[..n]);
+                        remaining -= n;
+                    }
                 }
                 DeltaOp::Literal(data) => {
                     output.write_all(data).await?;
